@@ -82,7 +82,7 @@ func c17Check(env *core.Env, cc core.Case) core.Verdict {
 	}
 
 	switch c.Cmd {
-	case "generate", "generate-include", "generate-except", "generate-cmdline":
+	case "generate", "generate-include", "generate-except", "generate-cmdline", "generate-define", "generate-define-include":
 		long := "q" + longBody(c.Len-1)
 		if c.Len == 1 {
 			long = "q"
@@ -103,6 +103,32 @@ func c17Check(env *core.Env, cc core.Case) core.Verdict {
 			tree["regex-assembly/exclude/small.ra"] = "nothinglisted\n"
 			program = "zulu26\n##!> include-except big small\n"
 			accept = append(accept, "zulu26")
+		case "generate-define", "generate-define-include":
+			// the long entry comes into being through the expansion of a definition
+			var ls []string
+			for _, l := range lines {
+				if l == long {
+					ls = append(ls, "{{big}}")
+				} else {
+					ls = append(ls, l)
+				}
+			}
+			def := "##!> define big " + long + "\n"
+			if c.Cmd == "generate-define" {
+				if c.Pos == "last" {
+					program = c.join(ls)
+					if c.NoFinal {
+						program += "\n"
+					}
+					program += def
+				} else {
+					program = def + c.join(ls)
+				}
+			} else {
+				tree["regex-assembly/include/big.ra"] = def + c.join(ls)
+				program = "zulu26\n##!> include big\n"
+				accept = append(accept, "zulu26")
+			}
 		case "generate-cmdline":
 			program = "##!> cmdline unix\n" + c.join(lines)
 			if c.NoFinal {
@@ -134,6 +160,32 @@ func c17Check(env *core.Env, cc core.Case) core.Verdict {
 			}
 		}
 		v.Counts["entries_checked"] = len(accept)
+		return v
+
+	case "format-check":
+		// --check must read the whole file as well: a canonical file with a long line passes, and one with an extra line after it fails
+		long := "q" + longBody(c.Len-1)
+		lines := c.place(long, func(i int) string { return c17Words[i%len(c17Words)] })
+		canonical := fmtModel(strings.Join(lines, "\n") + "\n")
+		if err := (sut.Tree{"regex-assembly/932100.ra": canonical}).Write(root); err != nil {
+			return core.Incon("cannot write tree: %v", err)
+		}
+		r := cli(env, root, nil, "regex", "format", "--check", "932100")
+		if r.Class() == sut.ClassFault || r.Class() == sut.ClassTimeout {
+			return core.Viol("crash:format-check", "format --check crashed: %s", describe(r))
+		}
+		if r.Exit != 0 {
+			return core.Viol("check-rejects-canonical:format", "format --check rejects a canonical file with a %d-byte line at position %s: %s", c.Len, c.Pos, describe(r))
+		}
+		bad := canonical + "    trailing-entry-after-everything\n"
+		_ = (sut.Tree{"regex-assembly/932100.ra": bad}).Write(root)
+		r2 := cli(env, root, nil, "regex", "format", "--check", "932100")
+		if r2.Exit == 0 {
+			return core.Viol("check-misses-tail:format", "format --check accepts a file whose last line (after a %d-byte line) is not canonically indented", c.Len)
+		}
+		if now, _ := sut.Read(root, "regex-assembly/932100.ra"); now != bad {
+			return core.Viol("check-writes:format", "format --check modified the file")
+		}
 		return v
 
 	case "format":
@@ -282,7 +334,7 @@ func init() {
 	register(&core.Property{
 		ID:    "C17",
 		Level: "exploration",
-		Rule: "every line-oriented command (generate from a file, through include, through include-except and inside a cmdline block; format; renumber-tests; update-copyright; update) gets an input in which one line has length L in {1, 4096, 65535, 65536, 65537, 70000, 262144, 1048576} at the first, middle or last position among 0..9 short lines, with and without final newline (enumerated completely in both tiers; the thorough tier adds PRNG-chosen lengths around the 64 KiB boundary). " +
+		Rule: "every line-oriented command (generate from a file, through include, through include-except, inside a cmdline block and through the expansion of a definition in the file or in an include file; format and format --check; renumber-tests; update-copyright; update) gets an input in which one line has length L in {1, 4096, 65535, 65536, 65537, 70000, 262144, 1048576} at the first, middle or last position among 0..9 short lines, with and without final newline (enumerated completely in both tiers; the thorough tier adds PRNG-chosen lengths around the 64 KiB boundary). " +
 			"Oracle (conservation): either the command fails loudly and changes nothing, or the generated/stored regex accepts every entry including those after the long one and the long entry itself (checked with Go's regexp engine), and rewritten files equal the line model of the respective command. Non-trivial = L >= 65536.",
 		Cases: func(env *core.Env, rng *rand.Rand) []core.Case {
 			var cs []core.Case
@@ -292,7 +344,7 @@ func init() {
 					lens = append(lens, 65000+rng.Intn(1200), 131072-2+rng.Intn(5), 600000+rng.Intn(500000))
 				}
 			}
-			for _, cmd := range []string{"generate", "generate-include", "generate-except", "generate-cmdline", "format", "renumber", "copyright", "update"} {
+			for _, cmd := range []string{"generate", "generate-include", "generate-except", "generate-cmdline", "generate-define", "generate-define-include", "format", "format-check", "renumber", "copyright", "update"} {
 				for _, l := range lens {
 					for _, pos := range []string{"first", "middle", "last"} {
 						for _, nf := range []bool{false, true} {
